@@ -459,9 +459,9 @@ theorem conn_table_skeleton : Gen.connTableSkeleton =
     "runClient(c *client, inBound bool) | else(inBound) | delpeer = n.removeCallingC",
     "runClient(c *client, inBound bool) | case <-n.ctx.Done() | return",
     "runClient(c *client, inBound bool) | case delpeer <- c.remoteID | (empty)",
-    "handleCallReq | fd, err = net.Dial(\"tcp\", req.addr)",
-    "handleCallReq | if fd, err = net.Dial(\"tcp\", req.addr); err != nil | req.replyResult(nil, err)",
-    "handleCallReq | if fd, err = net.Dial(\"tcp\", req.addr); err != nil | return",
+    "handleCallReq | fd, err = (&net.Dialer{Timeout: 2 * time.Second}).DialContext(req.ctx, \"tcp\", req.addr)",
+    "handleCallReq | if fd, err = (&net.Dialer{Timeout: 2 * time.Second}).DialContext(req.ctx, \"tcp\", req.addr); err != nil | req.replyResult(nil, err)",
+    "handleCallReq | if fd, err = (&net.Dialer{Timeout: 2 * time.Second}).DialContext(req.ctx, \"tcp\", req.addr); err != nil | return",
     "handleCallReq | c = newClient(n.id, fd, n.peersFeed, true)",
     "handleCallReq | fd.SetDeadline(time.Now().Add(2 * time.Second))",
     "handleCallReq | errc := c.handShake(req.ctx)",
